@@ -1,5 +1,7 @@
 package node
 
+import "fmt"
+
 type SymTbl []map[string]int
 
 // STRewriter is a recursive node transformation that resolves local and
@@ -24,6 +26,10 @@ func (f Function) STRewrite(symTbl SymTbl) Type {
 	// assign parameters to scope
 	for i, t := range f.Parameters.Elems {
 		name := t.(Name)
+		if prev, ok := scope[string(name)]; ok {
+			// a repeated parameter name hides the earlier parameter, which still owns its cell of the frame
+			scope[fmt.Sprint(prev)] = prev
+		}
 		scope[string(name)] = i
 	}
 
